@@ -108,6 +108,9 @@ Chase(e, L, B) == HasNameless(B) /\ act' = "Chase" /\ Apply(e :> OpReg(L)) /\ Lo
 \* two successive successful discoveries of e whose background merges run in the opposite order: still the
 \* second listing counts
 Swap(e, L1, L2) == act' = "Swap" /\ Apply(e :> OpReg(L2)) /\ Log(<<"Swap", e, L1, L2>>)
+\* e is removed WHILE a successful listing L of it is registered: either may be taken for the later one, but all
+\* views follow the same one
+Race(e, L) == act' = "Race" /\ (Apply(e :> OpReg(L)) \/ Apply(e :> OpRm)) /\ Log(<<"Race", e, L>>)
 \* concurrent operations on distinct endpoints; T = [D -> scenario token]
 TokOp(t) == IF t[1] = "Reg" THEN OpReg(t[3]) ELSE IF t[1] = "Rm" THEN OpRm ELSE OpNone("Fail")
 Par(T) == /\ act' = "Par" /\ Apply([e \in DOMAIN T |-> TokOp(T[e])])
@@ -143,6 +146,7 @@ ParOf(D) == LET a == CHOOSE x \in D : TRUE
 Concurrent == \/ \E e \in Eps : \E L1, L2 \in Listings : L1 # L2 /\ Burst(e, L1, L2)
               \/ \E e \in Eps : \E L \in Listings : \E B \in BadLists : Chase(e, L, B)
               \/ \E e \in Eps : \E L1, L2 \in Listings : L1 # L2 /\ Swap(e, L1, L2)
+              \/ \E e \in Eps : \E L \in Listings : Race(e, L)
               \/ \E D \in SUBSET Eps : Cardinality(D) \in {2, 3} /\ ParOf(D)
 Env  == Single \/ (WithConcurrency /\ Concurrent)
 Next == (Len(scn.ops) < MaxLen /\ Env) \/ \E e \in Eps : Merge(e)
@@ -164,7 +168,7 @@ Inv_C10_count == \A e \in Eps : Cardinality(last[e]) <= lastN[e]
 \* a rejected or failed update leaves the previous attribution intact
 RejectedKeeps == [][act' \in {"Bad", "Fail"} => UNCHANGED <<last, lastN, perEp, idx, uni>>]_vars
 \* only an accepted listing or a removal ever changes an attribution (merges and failures never do)
-OnlyUpdatesChange == [][(last' # last \/ perEp' # perEp \/ idx' # idx) => act' \in {"Reg", "Direct", "Rm", "Burst", "Par", "Chase", "Swap"}]_vars
+OnlyUpdatesChange == [][(last' # last \/ perEp' # perEp \/ idx' # idx) => act' \in {"Reg", "Direct", "Rm", "Burst", "Par", "Chase", "Swap", "Race"}]_vars
 \* what is attributed after a successful listing passed the endpoint's filter
 OnlyFiltered == \A e \in Eps : \A m \in last[e] : Passes(m, flt[e].inc, flt[e].exc)
 
